@@ -191,7 +191,7 @@ func runScan(c *runCtx) {
 			// twice: the second scan runs with warm chunk caches and used slabs
 			for k := 0; k < 2; k++ {
 				pat := m.patternBuilder([]rune(q))
-				mg, cancelled := m.scan(MatchRequest{chunks: snapshot, pattern: pat, sort: plan.Match.Sort, revision: rev})
+				mg, cancelled := scanReq(m, MatchRequest{chunks: snapshot, pattern: pat, sort: plan.Match.Sort, revision: rev})
 				if cancelled || mg == nil {
 					panic("zsim: INFRA scan cancelled without a reset")
 				}
